@@ -7,6 +7,300 @@ import Edn.Proofs.Fuel
 namespace Edn.Proofs
 open Edn.Model
 
+/-! ## helper predicates -/
+
+/-- an error result (if it is one) has the code `c` -/
+def _root_.Edn.Model.Res.codeIs (c : Err) : Res → Bool
+  | .err e _ => decide (e.code = c)
+  | _ => true
+
+/-- an error result (if it is one) has a code other than OK -/
+def _root_.Edn.Model.Res.errNotOk : Res → Bool
+  | .err e _ => decide (e.code ≠ .ok)
+  | _ => true
+
+theorem leaf_codeIs (ctx : Ctx) (st : St) :
+    (readString ctx st).codeIs .invalidString = true ∧
+    (readCharacter ctx st).codeIs .invalidCharacter = true ∧
+    (readIdentifier ctx st).codeIs .invalidSyntax = true ∧
+    (readSymbolic ctx st).codeIs .invalidSyntax = true ∧
+    (readNumberRes ctx st).codeIs .invalidNumber = true := by
+  refine ⟨?_, ?_, ?_, ?_, ?_⟩
+  · unfold readString
+    simp only []
+    repeat' split
+    all_goals rfl
+  · rw [readCharacter_eq]
+    repeat' split
+    all_goals rfl
+  · unfold readIdentifier
+    simp only []
+    repeat' split
+    all_goals rfl
+  · unfold readSymbolic
+    simp only []
+    repeat' split
+    all_goals rfl
+  · unfold readNumberRes
+    simp only []
+    repeat' split
+    all_goals rfl
+
+theorem codeIs_err {c : Err} {r : Res} {e : ErrInfo} {st' : St} (h : r.codeIs c = true) (hr : r = .err e st') :
+    e.code = c := by
+  subst hr
+  simpa [Res.codeIs] using h
+
+theorem codeIs_errNotOk {c : Err} {r : Res} (h : r.codeIs c = true) (hc : c ≠ Err.ok) :
+    r.errNotOk = true := by
+  cases r with
+  | ok v st => rfl
+  | closer st => rfl
+  | err e st =>
+    have : e.code = c := codeIs_err h rfl
+    simp only [Res.errNotOk, this, decide_eq_true_eq]
+    exact hc
+
+theorem leaf_errNotOk (ctx : Ctx) (st : St) :
+    (readString ctx st).errNotOk = true ∧ (readCharacter ctx st).errNotOk = true ∧
+    (readIdentifier ctx st).errNotOk = true ∧ (readSymbolic ctx st).errNotOk = true ∧
+    (readNumberRes ctx st).errNotOk = true := by
+  obtain ⟨h1, h2, h3, h4, h5⟩ := leaf_codeIs ctx st
+  exact ⟨codeIs_errNotOk h1 (by decide), codeIs_errNotOk h2 (by decide), codeIs_errNotOk h3 (by decide),
+    codeIs_errNotOk h4 (by decide), codeIs_errNotOk h5 (by decide)⟩
+
+theorem errNotOk_err {r : Res} {e : ErrInfo} {st' : St} (h : r.errNotOk = true) (hr : r = .err e st') :
+    e.code ≠ .ok := by
+  subst hr
+  simpa [Res.errNotOk] using h
+
+def EkV (RV : RVT) : Prop := ∀ d dm st, (RV d dm st).errNotOk = true
+def EkS (RS : RST) : Prop := ∀ d dm kind start st acc, (RS d dm kind start st acc).errNotOk = true
+def EkM (RM : RMT) : Prop := ∀ d dm start ns st ks vs, (RM d dm start ns st ks vs).errNotOk = true
+def Ek4 (R : R4T) : Prop := ∀ d dm start st, (R d dm start st).errNotOk = true
+
+theorem rvStep_errNotOk (ctx : Ctx) {RV : RVT} {RS : RST} {RM : RMT} {RN RT RMe : R4T}
+    (hV : EkV RV) (hS : EkS RS) (hM : EkM RM) (hN : Ek4 RN) (hT : Ek4 RT) (hMe : Ek4 RMe)
+    (d : Nat) (dm : Bool) (calls : List Call) (c : UInt8) (cs : Bytes) :
+    (rvStep ctx RV RS RM RN RT RMe d dm calls c cs).errNotOk = true := by
+  unfold rvStep
+  simp only []
+  obtain ⟨l1, l2, l3, l4, l5⟩ := leaf_errNotOk ctx { rest := c :: cs, calls := calls }
+  cases hdisp : dispatch ctx.cfg c with
+  | string => exact l1
+  | character => exact l2
+  | listOpen =>
+    simp only []
+    split
+    · rfl
+    · exact hS _ _ _ _ _ _
+  | vectorOpen =>
+    simp only []
+    split
+    · rfl
+    · exact hS _ _ _ _ _ _
+  | mapOpen =>
+    simp only []
+    split
+    · rfl
+    · exact hM _ _ _ _ _ _ _
+  | hash =>
+    simp only []
+    cases cs with
+    | nil => simp only []; exact hT _ _ _ _
+    | cons nx cs' =>
+      simp only []
+      split
+      · exact l4
+      split
+      · rfl
+      split
+      · exact hS _ _ _ _ _ _
+      split
+      · have h1 := hV (d + 1) true { rest := cs', calls := calls }
+        cases hr : RV (d + 1) true { rest := cs', calls := calls } with
+        | ok v st' => simp only []; exact hV _ _ _
+        | closer st' => rfl
+        | err e st' => rw [hr] at h1; exact h1
+      split
+      · exact hN _ _ _ _
+      · exact hT _ _ _ _
+  | sign =>
+    simp only []
+    cases cs with
+    | nil => exact l3
+    | cons nx t =>
+      simp only []
+      split
+      · exact l5
+      · exact l3
+  | digit => exact l5
+  | delimiter =>
+    simp only []
+    split <;> rfl
+  | metadata =>
+    simp only []
+    split
+    · rfl
+    · exact hMe _ _ _ _
+  | identifier => exact l3
+
+theorem rvOuter_errNotOk (ctx : Ctx) {RV : RVT} {RS : RST} {RM : RMT} {RN RT RMe : R4T}
+    (hV : EkV RV) (hS : EkS RS) (hM : EkM RM) (hN : Ek4 RN) (hT : Ek4 RT) (hMe : Ek4 RMe)
+    (d : Nat) (dm : Bool) (st : St) :
+    (rvOuter ctx RV RS RM RN RT RMe d dm st).errNotOk = true := by
+  unfold rvOuter
+  cases hs : st.rest with
+  | nil => rfl
+  | cons c0 t =>
+    simp only []
+    cases hw : (if isPreWs c0 = true then skipWs (c0 :: t) else c0 :: t) with
+    | nil => rfl
+    | cons c cs =>
+      simp only []
+      exact rvStep_errNotOk ctx hV hS hM hN hT hMe d dm st.calls c cs
+
+theorem rsStep_errNotOk (ctx : Ctx) {RV : RVT} {RS : RST} (hV : EkV RV) (hS : EkS RS)
+    (d : Nat) (dm : Bool) (kind start : Nat) (st : St) (acc : List Val) :
+    (rsStep ctx RV RS d dm kind start st acc).errNotOk = true := by
+  unfold rsStep
+  have h1 := hV (d + 1) dm st
+  cases hr : RV (d + 1) dm st with
+  | ok v st' => simp only []; exact hS _ _ _ _ _ _
+  | err e st' =>
+    rw [hr] at h1
+    simp only []
+    split
+    · rfl
+    · exact h1
+  | closer st' =>
+    simp only []
+    repeat' split
+    all_goals rfl
+
+theorem rmStep_errNotOk (ctx : Ctx) {RV : RVT} {RM : RMT} (hV : EkV RV) (hM : EkM RM)
+    (d : Nat) (dm : Bool) (start : Nat) (ns : Option Bytes) (st : St) (ks vs : List Val) :
+    (rmStep ctx RV RM d dm start ns st ks vs).errNotOk = true := by
+  unfold rmStep
+  simp only []
+  have h1 := hV (d + 1) dm st
+  cases hr : RV (d + 1) dm st with
+  | ok k st' =>
+    simp only []
+    have h2 := hV (d + 1) dm st'
+    cases hr2 : RV (d + 1) dm st' with
+    | ok v st'' => simp only []; exact hM _ _ _ _ _ _ _
+    | err e st'' =>
+      rw [hr2] at h2
+      simp only []
+      split
+      · rfl
+      · exact h2
+    | closer st'' => rfl
+  | err e st' =>
+    rw [hr] at h1
+    simp only []
+    split
+    · rfl
+    · exact h1
+  | closer st' =>
+    simp only []
+    repeat' split
+    all_goals rfl
+
+theorem rnStep_errNotOk (ctx : Ctx) {RV : RVT} {RM : RMT} (hV : EkV RV) (hM : EkM RM)
+    (d : Nat) (dm : Bool) (start : Nat) (st : St) :
+    (rnStep ctx RV RM d dm start st).errNotOk = true := by
+  unfold rnStep
+  have h1 := hV d dm st
+  cases hr : RV d dm st with
+  | closer st' => rfl
+  | err e st' => rw [hr] at h1; exact h1
+  | ok kwv st' =>
+    simp only []
+    split
+    · split
+      · split
+        · exact hM _ _ _ _ _ _ _
+        · rfl
+      · rfl
+    · rfl
+
+theorem rtStep_errNotOk (ctx : Ctx) {RV : RVT} (hV : EkV RV)
+    (d : Nat) (dm : Bool) (start : Nat) (st : St) :
+    (rtStep ctx RV d dm start st).errNotOk = true := by
+  unfold rtStep
+  simp only []
+  split
+  · rfl
+  · split
+    · rfl
+    · have h2 := (leaf_errNotOk ctx st).2.2.1
+      cases hr : readIdentifier ctx st with
+      | closer st' => rfl
+      | err e st' => rw [hr] at h2; exact h2
+      | ok tagv st' =>
+        simp only []
+        split
+        · have h3 := hV (d + 1) dm st'
+          cases hr2 : RV (d + 1) dm st' with
+          | closer st'' => rfl
+          | err e st'' => rw [hr2] at h3; exact h3
+          | ok v st'' =>
+            simp only []
+            repeat' split
+            all_goals rfl
+        · rfl
+
+theorem rmeStep_errNotOk (ctx : Ctx) {RV : RVT} (hV : EkV RV)
+    (d : Nat) (dm : Bool) (start : Nat) (st : St) :
+    (rmeStep ctx RV d dm start st).errNotOk = true := by
+  unfold rmeStep
+  simp only []
+  have h1 := hV (d + 1) dm st
+  cases hr : RV (d + 1) dm st with
+  | closer st' => rfl
+  | err e st' => rw [hr] at h1; exact h1
+  | ok m st' =>
+    simp only []
+    split
+    · rfl
+    · have h2 := hV (d + 1) dm st'
+      cases hr2 : RV (d + 1) dm st' with
+      | closer st'' => rfl
+      | err e st'' => rw [hr2] at h2; exact h2
+      | ok form st'' => simp only []; split <;> rfl
+
+theorem reader_errNotOk (ctx : Ctx) : ∀ (f : Nat),
+    EkV (readValue ctx f) ∧ EkS (readSeq ctx f) ∧ EkM (readMap ctx f) ∧ Ek4 (readNsMap ctx f) ∧
+    Ek4 (readTagged ctx f) ∧ Ek4 (readMeta ctx f) := by
+  intro f
+  induction f with
+  | zero =>
+    refine ⟨?_, ?_, ?_, ?_, ?_, ?_⟩
+    · intro d dm st; rw [readValue_zero]; rfl
+    · intro d dm kind start st acc; rw [readSeq_zero]; rfl
+    · intro d dm start ns st ks vs; rw [readMap_zero]; rfl
+    · intro d dm start st; rw [readNsMap_zero]; rfl
+    · intro d dm start st; rw [readTagged_zero]; rfl
+    · intro d dm start st; rw [readMeta_zero]; rfl
+  | succ f ih =>
+    obtain ⟨hV, hS, hM, hN, hT, hMe⟩ := ih
+    refine ⟨?_, ?_, ?_, ?_, ?_, ?_⟩
+    · intro d dm st; rw [readValue_succ]; exact rvOuter_errNotOk ctx hV hS hM hN hT hMe d dm st
+    · intro d dm kind start st acc; rw [readSeq_succ]; exact rsStep_errNotOk ctx hV hS d dm kind start st acc
+    · intro d dm start ns st ks vs; rw [readMap_succ]; exact rmStep_errNotOk ctx hV hM d dm start ns st ks vs
+    · intro d dm start st; rw [readNsMap_succ]; exact rnStep_errNotOk ctx hV hM d dm start st
+    · intro d dm start st; rw [readTagged_succ]; exact rtStep_errNotOk ctx hV d dm start st
+    · intro d dm start st; rw [readMeta_succ]; exact rmeStep_errNotOk ctx hV d dm start st
+
+/-! ## byte facts -/
+
+theorem dispatch_closer (cfg : Cfg) (c : UInt8) (hc : c = 0x29 ∨ c = 0x5D ∨ c = 0x7D) :
+    dispatch cfg c = .delimiter ∧ isPreWs c = false := by
+  obtain ⟨clj, exp⟩ := cfg
+  rcases hc with rfl | rfl | rfl <;> cases clj <;> cases exp <;> exact ⟨by decide +kernel, by decide +kernel⟩
+
 /-- every error any reader function returns has a code other than OK -/
 theorem reader_err_code (ctx : Ctx) : ∀ (f : Nat),
     (∀ d dm st e st', readValue ctx f d dm st = .err e st' → e.code ≠ .ok) ∧
@@ -15,7 +309,15 @@ theorem reader_err_code (ctx : Ctx) : ∀ (f : Nat),
     (∀ d dm start st e st', readNsMap ctx f d dm start st = .err e st' → e.code ≠ .ok) ∧
     (∀ d dm start st e st', readTagged ctx f d dm start st = .err e st' → e.code ≠ .ok) ∧
     (∀ d dm start st e st', readMeta ctx f d dm start st = .err e st' → e.code ≠ .ok) := by
-  sorry
+  intro f
+  obtain ⟨hV, hS, hM, hN, hT, hMe⟩ := reader_errNotOk ctx f
+  refine ⟨?_, ?_, ?_, ?_, ?_, ?_⟩
+  · intro d dm st e st' h; exact errNotOk_err (hV d dm st) h
+  · intro d dm kind start st acc e st' h; exact errNotOk_err (hS d dm kind start st acc) h
+  · intro d dm start ns st ks vs e st' h; exact errNotOk_err (hM d dm start ns st ks vs) h
+  · intro d dm start st e st' h; exact errNotOk_err (hN d dm start st) h
+  · intro d dm start st e st' h; exact errNotOk_err (hT d dm start st) h
+  · intro d dm start st e st' h; exact errNotOk_err (hMe d dm start st) h
 
 /-- top level: exactly one of value / end-of-input value / error, and an error's code is not OK -/
 theorem read_value_xor_error (cfg : Cfg) (opts : Opts) (input : Bytes) :
@@ -24,7 +326,25 @@ theorem read_value_xor_error (cfg : Cfg) (opts : Opts) (input : Bytes) :
     | .eofValue => opts.eofValue = true
     | .error code _ _ => code ≠ .ok
     | .fuelOut => False := by
-  sorry
+  unfold Edn.Model.read
+  simp only []
+  have hs := (reader_fuel_sufficient { cfg := cfg, opts := opts } (readFuel input)).1 0 false
+    { rest := input } (by simp only [readFuel]; omega)
+  have hc := (reader_noCloser { cfg := cfg, opts := opts } (readFuel input)).1 false { rest := input }
+  have he := (reader_err_code { cfg := cfg, opts := opts } (readFuel input)).1 0 false { rest := input }
+  cases hr : readValue { cfg := cfg, opts := opts } (readFuel input) 0 false { rest := input } with
+  | ok v st => trivial
+  | closer st => rw [hr] at hc; cases hc
+  | err e st =>
+    rw [hr] at hs
+    simp only [Res.isFuelOut] at hs
+    simp only [hs, Bool.false_eq_true, ↓reduceIte]
+    by_cases hq : (e.code == Err.unexpectedEof && e.eofTop && opts.eofValue) = true
+    · simp only [hq, ↓reduceIte]
+      simp only [Bool.and_eq_true] at hq
+      exact hq.2
+    · simp only [hq, Bool.false_eq_true, ↓reduceIte]
+      exact he e st hr
 
 /-- the leaf readers raise exactly their own class -/
 theorem leaf_error_classes (ctx : Ctx) (st st' : St) (e : ErrInfo) :
@@ -33,20 +353,32 @@ theorem leaf_error_classes (ctx : Ctx) (st st' : St) (e : ErrInfo) :
     (readIdentifier ctx st = .err e st' → e.code = .invalidSyntax) ∧
     (readSymbolic ctx st = .err e st' → e.code = .invalidSyntax) ∧
     (readNumberRes ctx st = .err e st' → e.code = .invalidNumber) := by
-  sorry
+  obtain ⟨h1, h2, h3, h4, h5⟩ := leaf_codeIs ctx st
+  exact ⟨codeIs_err h1, codeIs_err h2, codeIs_err h3, codeIs_err h4, codeIs_err h5⟩
 
 /-- a closing delimiter at top level (possibly after trivia) is an unmatched delimiter -/
 theorem stray_closer (ctx : Ctx) (f : Nat) (dm : Bool) (c : UInt8) (s : Bytes) (cl : List Call)
     (hc : c = 0x29 ∨ c = 0x5D ∨ c = 0x7D) :
     readValue ctx (f + 1) 0 dm { rest := c :: s, calls := cl } =
       .err (mkErr .unmatchedDelimiter) { rest := c :: s, calls := cl } := by
-  sorry
+  obtain ⟨hd, hw⟩ := dispatch_closer ctx.cfg c hc
+  rw [readValue_succ]
+  unfold rvOuter
+  simp only [hw, Bool.false_eq_true, ↓reduceIte]
+  unfold rvStep
+  simp only [hd, BEq.rfl, ↓reduceIte]
 
 /-- inside a collection the same byte ends the element loop instead -/
 theorem closer_inside (ctx : Ctx) (f d : Nat) (dm : Bool) (c : UInt8) (s : Bytes) (cl : List Call)
     (hc : c = 0x29 ∨ c = 0x5D ∨ c = 0x7D) :
     readValue ctx (f + 1) (d + 1) dm { rest := c :: s, calls := cl } = .closer { rest := c :: s, calls := cl } := by
-  sorry
+  obtain ⟨hd, hw⟩ := dispatch_closer ctx.cfg c hc
+  rw [readValue_succ]
+  unfold rvOuter
+  simp only [hw, Bool.false_eq_true, ↓reduceIte]
+  unfold rvStep
+  have hne : (d + 1 == 0) = false := by simp
+  simp only [hd, hne, Bool.false_eq_true, ↓reduceIte]
 
 /-- input ending inside a list / vector / set: UNTERMINATED_COLLECTION from the opening
     delimiter to the end -/
@@ -54,28 +386,39 @@ theorem eof_in_sequence (ctx : Ctx) (f d : Nat) (dm : Bool) (kind start : Nat) (
     (h : readValue ctx f (d + 1) dm st = .err e st') (he : e.code = .unexpectedEof) (hf : e.fuelOut = false) :
     readSeq ctx (f + 1) d dm kind start st acc =
       .err (mkErr .unterminatedCollection (some start) (some st'.rest.length)) st' := by
-  sorry
+  rw [readSeq_succ]
+  unfold rsStep
+  have hb : (e.code == Err.unexpectedEof && !e.fuelOut) = true := by rw [he, hf]; rfl
+  simp only [h, hb, ↓reduceIte, Ctx.pos]
 
 /-- a closing delimiter of the wrong kind: UNMATCHED_DELIMITER -/
 theorem wrong_closer (ctx : Ctx) (f d : Nat) (dm : Bool) (kind start : Nat) (st st' : St) (acc : List Val) (c : UInt8) (r : Bytes)
     (h : readValue ctx f (d + 1) dm st = .closer st') (hr : st'.rest = c :: r) (hc : c ≠ closerByte kind) :
     readSeq ctx (f + 1) d dm kind start st acc =
       .err (mkErr .unmatchedDelimiter (some start) (some (st'.rest.length - 1))) st' := by
-  sorry
+  rw [readSeq_succ]
+  unfold rsStep
+  have hb : (c != closerByte kind) = true := by simpa using hc
+  simp only [h, hr, hb, ↓reduceIte]
 
 /-- input ending inside a map (before a key or before a value): UNTERMINATED_COLLECTION -/
 theorem eof_in_map_key (ctx : Ctx) (f d : Nat) (dm : Bool) (start : Nat) (ns : Option Bytes) (st st' : St) (ks vs : List Val) (e : ErrInfo)
     (h : readValue ctx f (d + 1) dm st = .err e st') (he : e.code = .unexpectedEof) (hf : e.fuelOut = false) :
     readMap ctx (f + 1) d dm start ns st ks vs =
       .err (mkErr .unterminatedCollection (some start) (some st'.rest.length)) st' := by
-  sorry
+  rw [readMap_succ]
+  unfold rmStep
+  have hb : (e.code == Err.unexpectedEof && !e.fuelOut) = true := by rw [he, hf]; rfl
+  simp only [h, hb, ↓reduceIte, Ctx.pos]
 
 /-- a map with an odd number of forms: INVALID_SYNTAX -/
 theorem odd_map (ctx : Ctx) (f d : Nat) (dm : Bool) (start : Nat) (ns : Option Bytes) (st st' st'' : St) (ks vs : List Val) (k : Val)
     (h : readValue ctx f (d + 1) dm st = .ok k st') (h2 : readValue ctx f (d + 1) dm st' = .closer st'') :
     readMap ctx (f + 1) d dm start ns st ks vs =
       .err (mkErr .invalidSyntax (some start) (some st''.rest.length)) st'' := by
-  sorry
+  rw [readMap_succ]
+  unfold rmStep
+  simp only [h, h2, Ctx.pos]
 
 /-- a discard marker with nothing to discard before a closing delimiter: INVALID_DISCARD -/
 theorem orphan_discard (ctx : Ctx) (f d : Nat) (dm : Bool) (s : Bytes) (cl : List Call) (st' : St)
@@ -83,7 +426,20 @@ theorem orphan_discard (ctx : Ctx) (f d : Nat) (dm : Bool) (s : Bytes) (cl : Lis
     (h : readValue ctx f (d + 1) true { rest := s, calls := cl } = .closer st') :
     readValue ctx (f + 1) d dm { rest := 0x23 :: 0x5F :: s, calls := cl } =
       .err (mkErr .invalidDiscard (some (s.length + 2)) (some s.length)) st' := by
-  sorry
+  have hdisp : dispatch ctx.cfg 0x23 = .hash ∧ isPreWs 0x23 = false := by
+    generalize ctx.cfg = cfg
+    obtain ⟨clj, exp⟩ := cfg
+    cases clj <;> cases exp <;> exact ⟨by decide +kernel, by decide +kernel⟩
+  rw [readValue_succ]
+  unfold rvOuter
+  simp only [hdisp.2, Bool.false_eq_true, ↓reduceIte]
+  unfold rvStep
+  have h1 : ((0x5F : UInt8) == 0x23) = false := by decide
+  have h2 : ((0x5F : UInt8) == 0x7B) = false := by decide
+  have htd : decide (d ≥ Edn.Generated.Tables.maxNestingDepth) = false := by
+    simp only [ge_iff_le, decide_eq_false_iff_not, Nat.not_le]; exact hd
+  simp only [hdisp.1, h1, h2, htd, BEq.rfl, Bool.false_eq_true, ↓reduceIte, h, Ctx.pos, List.length_cons]
+  rfl
 
 /-- a tag with nothing to apply to before a closing delimiter: INVALID_SYNTAX; at the end of
     the input: UNEXPECTED_EOF (turned into UNTERMINATED_COLLECTION by an enclosing collection) -/
@@ -93,11 +449,16 @@ theorem orphan_tag (ctx : Ctx) (f d : Nat) (dm : Bool) (start : Nat) (st st' st'
     (hid : readIdentifier ctx st = .ok (.sym h md ns name) st')
     (hv : readValue ctx f (d + 1) dm st' = .closer st'') :
     readTagged ctx (f + 1) d dm start st = .err (mkErr .invalidSyntax (some start) (some st''.rest.length)) st'' := by
-  sorry
+  rw [readTagged_succ]
+  unfold rtStep
+  simp only [hs, hc, Bool.false_eq_true, ↓reduceIte]
+  rw [← hs]
+  simp only [hid, hv, Ctx.pos]
 
 theorem tag_at_eof (ctx : Ctx) (f d : Nat) (dm : Bool) (start : Nat) (cl : List Call) :
     readTagged ctx (f + 1) d dm start { rest := [], calls := cl } =
       .err (mkErr .unexpectedEof (some start) (some 0)) { rest := [], calls := cl } := by
-  sorry
+  rw [readTagged_succ]
+  rfl
 
 end Edn.Proofs
